@@ -4,6 +4,7 @@ pub mod epoch;
 pub mod votes;
 pub mod pool_driver;
 pub mod pool_model;
+pub mod world;
 
 use std::sync::OnceLock;
 
